@@ -434,4 +434,237 @@ theorem SyncInv_run (caps : Caps) (ops : List Op) (hf : OpsFresh (init caps) ops
     (hok : OpsSchedOK (init caps) ops) : SyncInv (run (init caps) ops) :=
   SyncInv_run_from _ ops (SyncInv_init caps) (WF_init caps) hf hok
 
+/-! ### `IndexSync` -/
+
+/-- **(a) no orphan index entries**: every non-inline subscription entry `(cid, filter)` of the topic index
+    (plain or shared) belongs to a registered client — some `(cid, i)` of the Clients map whose object holds a
+    subscription for `filter` -/
+def IndexSync (s : Server) : Prop :=
+  ∀ e ∈ indexEntries s.topics, ∃ ci ∈ s.clients, ci.1 = e.1 ∧ e.2 ∈ subKeys (getObj s ci.2)
+
+instance (s : Server) : Decidable (IndexSync s) := by unfold IndexSync; infer_instance
+
+/-- the form of the brief -/
+theorem IndexSync_iff (s : Server) : IndexSync s ↔
+    ∀ cid filter, (cid, filter) ∈ indexEntries s.topics →
+      ∃ i, (cid, i) ∈ s.clients ∧ filter ∈ ((getObj s i).subs.map (·.1)) := by
+  constructor
+  · intro h cid f hm
+    obtain ⟨ci, hci, h1, h2⟩ := h (cid, f) hm
+    obtain ⟨c, i⟩ := ci
+    have h1 : c = cid := h1
+    subst h1
+    exact ⟨i, hci, h2⟩
+  · intro h e he
+    obtain ⟨cid, f⟩ := e
+    obtain ⟨i, hi, hf⟩ := h cid f he
+    exact ⟨(cid, i), hi, rfl, hf⟩
+
+theorem SyncInv.indexSync {s : Server} (h : SyncInv s) : IndexSync s := by
+  intro e he
+  obtain ⟨cid, f⟩ := e
+  obtain ⟨i, hi, hf⟩ := h.own cid f (Entry.of_mem h.idx he)
+  exact ⟨(cid, i), assocGet_mem _ _ _ hi, rfl, hf⟩
+
+theorem IndexSync_init (caps : Caps) : IndexSync (init caps) := (SyncInv_init caps).indexSync
+
+/-- one op: `SyncInv` is the inductive strengthening of `IndexSync` (`SyncInv_step` keeps it) -/
+theorem IndexSync_step (s : Server) (op : Op) (h : SyncInv s) (hw : WF s) (hfresh : OpFresh s op)
+    (hok : SchedOK s op) : IndexSync (step s op).1 :=
+  (SyncInv_step s op h hw hfresh hok).indexSync
+
+/-- **(a) holds after every history that respects `OpFresh` and the discipline of the schedule ops** -/
+theorem IndexSync_run_partial (caps : Caps) (ops : List Op) (hf : OpsFresh (init caps) ops)
+    (hok : OpsSchedOK (init caps) ops) : IndexSync (run (init caps) ops) :=
+  (SyncInv_run caps ops hf hok).indexSync
+
+/-- the unrestricted statement (false: `IndexSync_all_histories_false` below) -/
+def IndexSync_all_histories : Prop :=
+  ∀ (caps : Caps) (ops : List Op), OpsFresh (init caps) ops → IndexSync (run (init caps) ops)
+
+/-! ### histories without schedule ops -/
+
+/-- no schedule op: only `connect`, `recv`, `recvCut`, `drop`, ticks and the inline API -/
+def Op.isSeq : Op → Bool
+  | .dropHold _ => false
+  | .dropHoldEarly _ => false
+  | .connectHold .. => false
+  | .release _ => false
+  | _ => true
+
+def SeqOps (ops : List Op) : Prop := ∀ op ∈ ops, op.isSeq = true
+
+instance (ops : List Op) : Decidable (SeqOps ops) := by unfold SeqOps; infer_instance
+
+/-- no handler is parked -/
+def NoSched (s : Server) : Prop := s.parked = [] ∧ s.parkedEarly = [] ∧ s.pending = []
+
+theorem NoSched.schedOK {s : Server} (h : NoSched s) (op : Op) : SchedOK s op := by
+  obtain ⟨h1, h2, h3⟩ := h
+  have hfree : ∀ conn, FreeConn s conn := by
+    intro conn
+    unfold FreeConn
+    split
+    · unfold Free
+      rw [h1, h2, h3]
+      exact ⟨List.not_mem_nil, List.not_mem_nil, fun _ hp => by cases hp⟩
+    · trivial
+  cases op <;> unfold SchedOK <;> first | exact hfree _ | trivial | skip
+  intro _ e _ _
+  rw [h1, h2]
+  exact ⟨List.not_mem_nil, List.not_mem_nil⟩
+
+theorem tickClients_lst (s : Server) (dt : Int) : Lst s (tickClients s dt).1 := by
+  unfold tickClients
+  refine foldl_inv (fun (acc : Server × List Out) => Lst s acc.1) _ _ _ (Lst.refl s) ?_
+  intro acc e h
+  extract_lets +onlyGivenNames c
+  split
+  · extract_lets +onlyGivenNames s1 s2
+    have h2 : Lst s s2 := (h.trans (clearInflights_quiet acc.1 e.2).lst).trans (unsubscribeClient_lst s1 e.2)
+    exact ⟨h2.parked, h2.parkedEarly⟩
+  · exact h
+
+/-- an op that is not a schedule op parks and releases no handler -/
+theorem step_seq_lists {s : Server} (op : Op) (hseq : op.isSeq = true) (h : SyncInv s) (hw : WF s)
+    (hfresh : OpFresh s op) (hok : SchedOK s op) :
+    Lst s (step s op).1 ∧ (step s op).1.pending = s.pending := by
+  cases op with
+  | connect conn k =>
+    have hf : conn ∉ s.connOf.map (·.1) := hfresh
+    rw [step]
+    split
+    rename_i s1 o h1
+    obtain ⟨a1, l1, p1, c1⟩ := connect_inv h hw conn k hf
+    have w1 := connect_wf s conn k hw hf
+    rw [h1] at a1 l1 p1 c1 w1
+    replace a1 : SyncInv s1 := a1
+    replace l1 : Lst s s1 := l1
+    replace p1 : s1.pending = s.pending := p1
+    replace c1 : s1.connOf = s.connOf ++ [(conn, s.objs.length)] := c1
+    replace w1 : WF s1 := w1
+    split
+    · split
+      · split
+        rename_i s2 o2 h2
+        have r := recvOn_inv a1 w1 conn .pingreq false (by
+          intro i hi
+          rw [c1, assocGet_append_fresh _ _ _ hf] at hi
+          cases hi
+          refine ⟨⟨?_, ?_, ?_⟩, fun x => x⟩
+          · rw [l1.parked]; exact fun hm => Nat.lt_irrefl _ (h.parkedLt _ (Or.inl hm))
+          · rw [l1.parkedEarly]; exact fun hm => Nat.lt_irrefl _ (h.parkedLt _ (Or.inr hm))
+          · rw [p1]
+            intro p hp e
+            have := (hw.pending_valid p hp).1
+            rw [e] at this
+            exact Nat.lt_irrefl _ this)
+        have g := recvOn_good s1 conn .pingreq false
+        rw [h2] at r g
+        exact ⟨l1.trans r.2, g.pending.trans p1⟩
+      · exact ⟨l1, p1⟩
+    · exact ⟨l1, p1⟩
+  | recv conn pk =>
+    have hok : FreeConn s conn := hok
+    rw [step]
+    exact ⟨(recvOn_inv h hw conn pk true (fun i hi => ⟨hok.free hi, fun x => x⟩)).2, (recvOn_good s conn pk true).pending⟩
+  | drop conn =>
+    rw [step]
+    split
+    · exact ⟨Lst.refl s, rfl⟩
+    · rename_i i hc
+      split
+      · exact ⟨Lst.refl s, rfl⟩
+      · extract_lets +onlyGivenNames s1
+        have q1 : Quiet s s1 := (Quiet.refl s).mod i _ (by qc_rfl)
+        split
+        rename_i s2 o h2
+        have l := detach_lst s1 i true
+        have g := detach_good s1 i true
+        rw [h2] at l g
+        exact ⟨q1.lst.trans l, g.pending.trans q1.pending⟩
+  | recvCut conn pk =>
+    have hok : FreeConn s conn := hok
+    rw [step]
+    split
+    · exact ⟨Lst.refl s, rfl⟩
+    · rename_i i hc
+      split
+      · exact ⟨Lst.refl s, rfl⟩
+      · extract_lets +onlyGivenNames s1
+        have q1 : Quiet s s1 := (Quiet.refl s).mod i _ (by qc_rfl)
+        have w1 : WF s1 := hw.of_good ((Good.refl s).mod i _ (by cw_rfl))
+        have hfr1 : Free s1 i := (hok.free hc).of_eq q1.parked q1.parkedEarly q1.pending
+        split
+        rename_i s2 o h2
+        have r2 := recvOn_inv (h.of_quiet q1) w1 conn pk false (fun i' hi' => by
+          have hi' : assocGet s.connOf conn = some i' := hi'
+          rw [hc] at hi'
+          cases hi'
+          exact ⟨hfr1, fun x => x⟩)
+        have g2 := recvOn_good s1 conn pk false
+        rw [h2] at r2 g2
+        split
+        rename_i s3 o2 h3
+        show Lst s s3 ∧ s3.pending = s.pending
+        split at h3
+        · cases h3
+          exact ⟨q1.lst.trans r2.2, g2.pending.trans q1.pending⟩
+        · have l := detach_lst s2 i true
+          have g := detach_good s2 i true
+          rw [h3] at l g
+          exact ⟨(q1.lst.trans r2.2).trans l, (g.pending.trans g2.pending).trans q1.pending⟩
+  | tick kind t =>
+    rw [step]
+    split
+    · exact ⟨tickClients_lst s t, (tickClients_good s t).pending⟩
+    · split
+      · exact ⟨(tickRetained_quiet s t).lst, (tickRetained_quiet s t).pending⟩
+      · split
+        · exact ⟨(tickInflight_quiet s t).lst, (tickInflight_quiet s t).pending⟩
+        · split
+          · exact ⟨(tickWills_quiet s t).lst, (tickWills_quiet s t).pending⟩
+          · exact ⟨Lst.refl s, rfl⟩
+  | inlinePublish topic payload retain qos =>
+    rw [step]
+    have q := receivePacket_quiet s 0 (.publish qos false retain qos topic payload 0 none) rfl
+    exact ⟨q.lst, q.pending⟩
+  | inlineSubscribe id filter =>
+    rw [step]
+    split
+    · exact ⟨Lst.refl s, rfl⟩
+    · exact ⟨⟨rfl, rfl⟩, rfl⟩
+  | inlineUnsubscribe id filter =>
+    rw [step]
+    split
+    · exact ⟨Lst.refl s, rfl⟩
+    · exact ⟨⟨rfl, rfl⟩, rfl⟩
+  | dropHold conn => cases hseq
+  | dropHoldEarly conn => cases hseq
+  | connectHold conn k stage => cases hseq
+  | release conn => cases hseq
+
+theorem SyncInv_run_seq_from (s : Server) (ops : List Op) (h : SyncInv s) (hw : WF s) (hn : NoSched s)
+    (hseq : SeqOps ops) (hf : OpsFresh s ops) : SyncInv (run s ops) ∧ OpsSchedOK s ops := by
+  induction ops generalizing s with
+  | nil => exact ⟨h, trivial⟩
+  | cons op ops ih =>
+    have hok := hn.schedOK op
+    have hs := hseq op List.mem_cons_self
+    obtain ⟨l, p⟩ := step_seq_lists op hs h hw hf.1 hok
+    have hn' : NoSched (step s op).1 := ⟨l.parked.trans hn.1, l.parkedEarly.trans hn.2.1, p.trans hn.2.2⟩
+    obtain ⟨a, b⟩ := ih _ (SyncInv_step s op h hw hf.1 hok) (WF_step s op hw hf.1) hn'
+      (fun o ho => hseq o (List.mem_cons_of_mem _ ho)) hf.2
+    exact ⟨a, hok, b⟩
+
+/-- a history without schedule ops respects the discipline of the schedule ops -/
+theorem SeqOps.schedOK (caps : Caps) (ops : List Op) (hseq : SeqOps ops) (hf : OpsFresh (init caps) ops) :
+    OpsSchedOK (init caps) ops :=
+  (SyncInv_run_seq_from _ ops (SyncInv_init caps) (WF_init caps) ⟨rfl, rfl, rfl⟩ hseq hf).2
+
+/-- **(a) holds after every history without schedule ops** -/
+theorem IndexSync_run_seq (caps : Caps) (ops : List Op) (hseq : SeqOps ops) (hf : OpsFresh (init caps) ops) :
+    IndexSync (run (init caps) ops) :=
+  IndexSync_run_partial caps ops hf (hseq.schedOK caps ops hf)
+
 end Mochi.Broker
